@@ -36,7 +36,7 @@ BIG_SRC = 'fn main() -> int {\n    let mut i: int = 0\n    while (< i 40000) {\n
 BEHAVIOURS = ["exec_good", "exec_good", "ping", "status", "header_only", "trunc_0", "trunc_1", "trunc_7", "trunc_8", "trunc_half", "trunc_lenm1",
               "garbage", "wrong_version", "unknown_type", "len_over_max", "zero_len_exec", "not_a_module", "hostile_bad_jump", "hostile_bad_crc",
               "hostile_code_range", "hostile_underflow", "hostile_bad_local", "hostile_bad_call", "hostile_bad_str", "hostile_bad_global",
-              "hostile_bad_opcode", "hostile_truncated_operand", "hostile_entry_index", "disconnect_before_output", "disconnect_during_output", "disconnect_after_output", "stall_open", "stall_header",
+              "hostile_bad_opcode", "hostile_truncated_operand", "hostile_entry_index", "hostile_upvalue_without_closure", "disconnect_before_output", "disconnect_during_output", "disconnect_after_output", "stall_open", "stall_header",
               "exec_big_complete"]
 
 
@@ -131,6 +131,16 @@ def make_hostile(good):
             body[f_len - 1] = 0x3D
         bb[coff + f_code: coff + f_code + f_len] = body
         out[name] = recrc(bb)
+    # verifier-acceptable but unusual: the entry function declares an upvalue and loads it although it is not entered
+    # through a closure (the stand-alone VM decides what the result is; the daemon must give the same and survive)
+    bb = bytearray(b)
+    body = bytearray(f_len)
+    body[0:5] = bytes([0x14, 0x00, 0x00, 0x00, 0x00])      # LOAD_UPVALUE depth 0, index 0
+    body[5] = 0x08          # POP
+    body[f_len - 1] = 0x3D  # RET
+    bb[coff + f_code: coff + f_code + f_len] = body
+    struct.pack_into("<H", bb, e + 16, 1)              # upvalue_count of the entry function
+    out["hostile_upvalue_without_closure"] = recrc(bb)
     bb = bytearray(b)
     struct.pack_into("<I", bb, e + 6, 0xFFFFFFF0)      # code_offset of the entry function
     struct.pack_into("<I", bb, e + 10, 0x00000040)     # code_length
